@@ -17,7 +17,7 @@ TIER_CAPS = {  # per-query caps: (timeout s, address-space GB)
 class Query:
     def __init__(self, name, unit, entry, unwind=10, unwindset=(), flags=(), object_bits=10, checks='none',
                  tier='quick', replay='native', bounds=None, about='', known=None, expect_witness=True,
-                 mutate_vectors=4, timeout=None, mem_gb=None, expect_fail=(), loop_bounds=(), weight=1):
+                 mutate_vectors=4, timeout=None, mem_gb=None, expect_fail=(), loop_bounds=(), weight=1, trace=True):
         self.name = name; self.unit = unit; self.entry = entry; self.unwind = unwind
         self.unwindset = list(unwindset); self.flags = list(flags); self.object_bits = object_bits
         self.checks = checks; self.tier = tier; self.replay = replay
@@ -28,6 +28,7 @@ class Query:
         self.timeout = timeout; self.mem_gb = mem_gb
         self.expect_fail = list(expect_fail)
         self.loop_bounds = list(loop_bounds)
+        self.trace = trace         # ask CBMC for traces (witness vector for the differential run); building a trace can dominate for big instances
         self.weight = weight       # share of the parallel job slots this query occupies (memory-hungry queries: > 1)   # descriptions of further assertions that must FAIL (reachability twins)
 
 
@@ -87,7 +88,7 @@ class Check:
 
         # 2. solve
         def solve(q):
-            cmd = pl.cbmc_cmd(q.unit.cfile, q.entry, q.unwind, q.unwindset + pl.loop_unwindset(q.unit.cfile, q.entry, q.loop_bounds), q.flags + ['--trace'], q.object_bits, q.checks)
+            cmd = pl.cbmc_cmd(q.unit.cfile, q.entry, q.unwind, q.unwindset + pl.loop_unwindset(q.unit.cfile, q.entry, q.loop_bounds), q.flags + (['--trace'] if q.trace else []), q.object_bits, q.checks)
             res = pl.run_cbmc(cmd, q.timeout or cap_t, q.mem_gb or cap_m, log=os.path.join(wd, q.name + '.cbmc.log'))
             res['cmd'] = ' '.join(pl.sh_quote(c) for c in cmd)
             # A per-loop bound is an optimisation keyed on inlining decisions.  If ONLY unwinding assertions fail, the bound may simply
